@@ -37,7 +37,8 @@ type c02Case struct {
 	Burst       []int  `json:"burst"`       // burst length per emitter
 	Attachments []int  `json:"attachments"` // attachments per event, per emitter (0..4)
 	Hook        bool   `json:"hook"`        // yield at packetQueue.add before the signal
-	History     string `json:"history"`     // s2c only: how the connection came to be: "" (one CONNECT) | two-at-once | rejected-first
+	History     string `json:"history"`     // how the connection came to be. s2c: "" (one CONNECT) | two-at-once | rejected-first; c2s: "" | across-connect (the emitters start before Connect and emit 40 x as much, in chunks, right through the flush of the offline buffer)
+	AckLoad     int    `json:"ack_load"`    // the recording peer sends this many ack-carrying events meanwhile: the emitting side's ACK packets share the wire with its events
 }
 
 func (c c02Case) class() string { return c.Dir + "," + c.Transport }
@@ -66,6 +67,10 @@ func evalC02Wire(c c02Case) (f *Failure, nontrivial bool) {
 		}
 		mu.Unlock()
 	}
+	scale := 1
+	if c.History == "across-connect" {
+		scale = 40
+	}
 	emitAll := func(em func(g, seq int, bins []any)) {
 		var wg sync.WaitGroup
 		gate := make(chan struct{})
@@ -74,7 +79,10 @@ func evalC02Wire(c c02Case) (f *Failure, nontrivial bool) {
 			go func(g int) {
 				defer wg.Done()
 				<-gate
-				for seq := 0; seq < c.Burst[g]; seq++ {
+				for seq := 0; seq < c.Burst[g]*scale; seq++ {
+					if scale > 1 && seq%25 == 24 {
+						time.Sleep(20 * time.Microsecond) // virtual: lets the connection make progress while the emitter is in the middle of its stream
+					}
 					bins := make([]any, c.Attachments[g])
 					for k := range bins {
 						bins[k] = Bin(fmt.Sprintf("g%d-s%d-a%d", g, seq, k))
@@ -127,15 +135,44 @@ func evalC02Wire(c c02Case) (f *Failure, nontrivial bool) {
 				UpgradeDone:          func(string) { upgraded = true },
 				WebSocketDialOptions: &websocket.DialOptions{HTTPClient: &http.Client{Transport: tr}}}})
 			s := m.Socket("/", nil)
-			s.Connect()
-			settle(0)
-			settle(2 * time.Second) // upgrade (if any) completes
-			if !s.Connected() || (c.Transport == "upgrade" && (!upgraded || srvSock.TransportName() != "websocket")) {
-				res = fail("rig-connect", fmt.Sprintf("emitter side not ready (connected %v, upgraded %v)", s.Connected(), upgraded))
-			} else {
-				emitAll(func(g, seq int, bins []any) { s.Emit("e", append([]any{g, seq}, bins...)...) })
+			s.OnEvent("rt", func(ack func(int)) { ack(1) })
+			ackLoad := func() {
+				for i := 0; i < c.AckLoad; i++ {
+					p, _ := parser.NewPacket(parser.PacketTypeMessage, false, []byte(fmt.Sprintf(`2%d["rt"]`, 5000+i)))
+					srvSock.Send(p)
+					if i%4 == 3 {
+						time.Sleep(10 * time.Microsecond)
+					}
+				}
+			}
+			if c.History == "across-connect" {
+				done := make(chan struct{})
+				go func() {
+					defer close(done)
+					emitAll(func(g, seq int, bins []any) { s.Emit("e", append([]any{g, seq}, bins...)...) })
+				}()
+				time.Sleep(100 * time.Microsecond) // the first chunks are emitted offline
+				s.Connect()
+				<-done
 				settle(0)
 				settle(100 * time.Second)
+				if !s.Connected() {
+					res = fail("rig-connect", "emitter side did not connect")
+				}
+			} else {
+				s.Connect()
+				settle(0)
+				settle(2 * time.Second) // upgrade (if any) completes
+				if !s.Connected() || (c.Transport == "upgrade" && (!upgraded || srvSock.TransportName() != "websocket")) {
+					res = fail("rig-connect", fmt.Sprintf("emitter side not ready (connected %v, upgraded %v)", s.Connected(), upgraded))
+				} else {
+					if c.AckLoad > 0 {
+						go ackLoad()
+					}
+					emitAll(func(g, seq int, bins []any) { s.Emit("e", append([]any{g, seq}, bins...)...) })
+					settle(0)
+					settle(100 * time.Second)
+				}
 			}
 			m.Close()
 			server.Close()
@@ -182,6 +219,18 @@ func evalC02Wire(c c02Case) (f *Failure, nontrivial bool) {
 				if ss == nil || (c.Transport == "upgrade" && !upgraded) {
 					res = fail("rig-connect", fmt.Sprintf("server side not ready (socket %v, upgraded %v)", ss != nil, upgraded))
 				} else {
+					if c.AckLoad > 0 {
+						ss.OnEvent("rt", func(ack func(int)) { ack(1) })
+						go func() {
+							for i := 0; i < c.AckLoad; i++ {
+								p, _ := parser.NewPacket(parser.PacketTypeMessage, false, []byte(fmt.Sprintf(`2%d["rt"]`, 5000+i)))
+								cli.Send(p)
+								if i%4 == 3 {
+									time.Sleep(10 * time.Microsecond)
+								}
+							}
+						}()
+					}
 					emitAll(func(g, seq int, bins []any) { ss.Emit("e", append([]any{g, seq}, bins...)...) })
 					settle(0)
 					settle(100 * time.Second)
@@ -247,8 +296,8 @@ func evalC02Wire(c c02Case) (f *Failure, nontrivial bool) {
 		lastG = g
 	}
 	for g := range next {
-		if next[g] != c.Burst[g] {
-			return fail("nothing-lost", fmt.Sprintf("emitter %d: %d of %d events reached the wire", g, next[g], c.Burst[g])), nontrivial
+		if next[g] != c.Burst[g]*scale {
+			return fail("nothing-lost", fmt.Sprintf("emitter %d: %d of %d events reached the wire", g, next[g], c.Burst[g]*scale)), nontrivial
 		}
 	}
 	return nil, c.Emitters >= 2 && multiFrameInterleavedInTime
@@ -259,6 +308,12 @@ func genC02Case(t *rapid.T) c02Case {
 		Emitters: rapid.SampledFrom([]int{1, 2, 2, 3, 4, 8, 16}).Draw(t, "emitters"), Hook: rapid.Bool().Draw(t, "hook")}
 	if c.Dir == "s2c" {
 		c.History = rapid.SampledFrom([]string{"", "", "two-at-once", "rejected-first"}).Draw(t, "history")
+	} else if c.Transport != "upgrade" && rapid.IntRange(0, 5).Draw(t, "acrossConnect") == 0 {
+		c.History = "across-connect"
+		c.Emitters = min(c.Emitters, 3)
+	}
+	if c.History != "across-connect" && rapid.IntRange(0, 2).Draw(t, "ackLoad") == 0 {
+		c.AckLoad = rapid.SampledFrom([]int{8, 40, 200}).Draw(t, "acks")
 	}
 	for g := 0; g < c.Emitters; g++ {
 		c.Burst = append(c.Burst, rapid.IntRange(1, 50/max(1, c.Emitters/4)).Draw(t, "burst"))
@@ -271,7 +326,8 @@ func TestC02_WireOrder(t *testing.T) {
 	setT(t)
 	defer startWatchdog(t, 90*time.Second)()
 	ev := NewEv(t, "C02", c02CheckWire, "rapid on the virtual-time network: 1..16 emitting goroutines x bursts of 1..50 events x 0..4 attachments per event, both directions, transport {polling, websocket, "+
-		"after a completed upgrade}, optional yield hook between queue append and sender signal; the receiver is a raw Engine.IO endpoint (repo's eio package) whose message packets feed the reference "+
+		"after a completed upgrade}, optional yield hook between queue append and sender signal, optionally 8..200 ack-carrying events from the recording peer meanwhile (the emitter's ACK packets share the "+
+		"wire), optionally (client side) emitters that start before Connect and stream 40 x as much in chunks right through the flush of the offline buffer; the receiver is a raw Engine.IO endpoint (repo's eio package) whose message packets feed the reference "+
 		"streaming decoder; oracle: frames of a packet contiguous, attachments in place, per emitter sequence numbers 0,1,2,.. in order, nothing lost; "+
 		"non-trivial = >= 2 emitters and a multi-frame packet adjacent on the wire to another emitter's packet")
 	rapidGuard(t, "C02", c02CheckWire)
